@@ -12,9 +12,9 @@ package main
 
 import (
 	"encoding/json"
-	"io"
 	"errors"
 	"fmt"
+	"io"
 	"os"
 	"path/filepath"
 	"sort"
@@ -200,13 +200,13 @@ func check(repo, verif, id, tier string) int {
 		for _, k := range rep.Known {
 			fmt.Printf("KNOWN-FINDING: property=%s %s [%s]\n", id, k.Finding.What, k.Finding.Signature)
 			// a replay file for the listed finding, so that it can be re-executed
-			if path, err := harness.WriteReplay(filepath.Join(verif, "known_replays"), k.Case); err == nil {
+			if path, err := harness.WriteReplay(filepath.Join(env("CRDSIM_OUT", verif), "known_replays"), k.Case); err == nil {
 				fmt.Printf("  replay of the known finding: %s\n", path)
 			}
 		}
 		var replayPaths []string
 		for _, v := range rep.Violations {
-			path, err := harness.WriteReplay(verif, v)
+			path, err := harness.WriteReplay(env("CRDSIM_OUT", verif), v)
 			if err != nil {
 				die(err)
 			}
@@ -255,30 +255,30 @@ func writeEvidence(verif string, p harness.Property, e *harness.Env, st *harness
 		budgetRatio = float64(harness.BudgetFor(&harness.Step{})) / float64(e.TicksMax)
 	}
 	cov := map[string]any{
-		"evaluations":          procs + st.PlainProcs,
-		"distinct_nontrivial":  len(st.Distinct),
-		"rule":                 p.Rule(),
-		"samples":              st.Samples,
-		"cases":                st.Cases,
-		"simulated_processes":  procs,
-		"plain_processes":      st.PlainProcs,
-		"trivial_processes":    st.Trivial,
-		"processes_per_hour":   int64(perHour),
-		"seeds":                []uint64{seed},
-		"simulated_time_ticks": map[string]any{"total": e.TicksSum, "max_per_process": e.TicksMax, "min_hang_budget_over_max": budgetRatio, "needed_stage2": st.Stage2},
-		"faults_fired":         st.FaultFired,
-		"faults_configured":    st.FaultConf,
+		"evaluations":                   procs + st.PlainProcs,
+		"distinct_nontrivial":           len(st.Distinct),
+		"rule":                          p.Rule(),
+		"samples":                       st.Samples,
+		"cases":                         st.Cases,
+		"simulated_processes":           procs,
+		"plain_processes":               st.PlainProcs,
+		"trivial_processes":             st.Trivial,
+		"processes_per_hour":            int64(perHour),
+		"seeds":                         []uint64{seed},
+		"simulated_time_ticks":          map[string]any{"total": e.TicksSum, "max_per_process": e.TicksMax, "min_hang_budget_over_max": budgetRatio, "needed_stage2": st.Stage2},
+		"faults_fired":                  st.FaultFired,
+		"faults_configured":             st.FaultConf,
 		"map_order_signatures_per_site": mapSites,
-		"distinct_schedules":   len(st.SchedSigs),
-		"distinct_delivery_signatures": len(st.PlanSigs),
-		"commands":             st.CmdCount,
-		"outcomes":             st.ExitKinds,
-		"probes":               st.Probes,
-		"instrumenter":         map[string]any{"counts": e.Report.Counts, "map_sites": e.Report.Sites, "warnings": e.Report.Warnings},
-		"fidelity_gate":        fid,
+		"distinct_schedules":            len(st.SchedSigs),
+		"distinct_delivery_signatures":  len(st.PlanSigs),
+		"commands":                      st.CmdCount,
+		"outcomes":                      st.ExitKinds,
+		"probes":                        st.Probes,
+		"instrumenter":                  map[string]any{"counts": e.Report.Counts, "map_sites": e.Report.Sites, "warnings": e.Report.Warnings},
+		"fidelity_gate":                 fid,
 		"components": map[string]any{
-			"real": []string{"all crd packages (instrumented: same statements plus seam calls)", "ybase lexer base", "yaml.v3", "cobra/pflag", "gomidi smf writer/reader", "Go runtime", "real fd 1/2 and real exit status"},
-			"stub": []string{"stdin and file opens/creates (simulated streams, virtual file map)", "goroutine hand-over, channels, mutexes (simulated primitives with Go semantics, baton scheduler)", "map iteration order (seeded permutation of the real map's keys)", "RLIMIT_AS as the allocator limit"},
+			"real":          []string{"all crd packages (instrumented: same statements plus seam calls)", "ybase lexer base", "yaml.v3", "cobra/pflag", "gomidi smf writer/reader", "Go runtime", "real fd 1/2 and real exit status"},
+			"stub":          []string{"stdin and file opens/creates (simulated streams, virtual file map)", "goroutine hand-over, channels, mutexes (simulated primitives with Go semantics, baton scheduler)", "map iteration order (seeded permutation of the real map's keys)", "RLIMIT_AS as the allocator limit"},
 			"not_exercised": []string{"crd write play, crd midi port (real-time playback)"},
 		},
 		"known_findings_matched": known,
@@ -301,7 +301,7 @@ func writeEvidence(verif string, p harness.Property, e *harness.Env, st *harness
 	if err != nil {
 		return err
 	}
-	dir := filepath.Join(verif, "evidence")
+	dir := filepath.Join(env("CRDSIM_OUT", verif), "evidence")
 	if err := os.MkdirAll(dir, 0o755); err != nil {
 		return err
 	}
